@@ -570,17 +570,26 @@ theorem hostText_rebracket (o : Oracles) (n : Str) (np : NetlocParts) (h0 h1 : S
     (he : encodeHost o h0 false = .ok h1) :
     ∃ body, HostTxt (rebracket (mem 91 (rpartition 64 n).2.2) h1) body := by
   obtain ⟨_, h64, hB, hnB⟩ := StrTotal.splitNetloc_host_facts o n np h0 hn hh
-  rcases StrTotal.encodeHost_false_cases o h0 h1 he with ⟨h8, hv6, hr⟩ | hrest
-  · obtain ⟨hc, hc0, hsub⟩ := StrTotal.v6_body_facts h0 h8 hv6
+  -- a bracketed canonical IPv6 text made from `t` (the host, or since fix 3fbf5b4 its IDNA answer)
+  have keyv6 : ∀ (t : Str) (h8 : List Nat), (∀ c, Delim c → c ∈ t → c ∈ h0) →
+      parseIP (partition 37 t).1 = some (.v6 h8) → h1 = [91] ++ (ipv6ToStr h8 ++ zonePart t) ++ [93] →
+      ∃ body, HostTxt (rebracket (mem 91 (rpartition 64 n).2.2) h1) body := by
+    intro t h8 ht hv6 hr
+    obtain ⟨hc, hc0, hsub⟩ := StrTotal.v6_body_facts t h8 hv6
+    have hc0' : 58 ∈ h0 := ht 58 (by simp [Delim]) hc0
     have hBt : mem 91 (rpartition 64 n).2.2 = true := by
       cases hb : mem 91 (rpartition 64 n).2.2 with
       | true => rfl
-      | false => exact absurd hc0 (hnB hb).1
+      | false => exact absurd hc0' (hnB hb).1
     have hm : mem 91 h1 = true := mem_iff.mpr (by rw [hr]; simp)
     have : rebracket (mem 91 (rpartition 64 n).2.2) h1 = h1 := by simp [rebracket, hm]
     rw [this, hr]
-    exact ⟨_, Or.inl ⟨rfl, fun hm => hB hBt (hsub 93 (by simp) hm), fun hm => h64 (hsub 64 (by simp) hm)⟩⟩
-  · have hd : ∀ c, Delim c → c ∈ h1 → c ∈ h0 := StrTotal.encodeHost_false_delims o h0 h1 hidna hrest
+    exact ⟨_, Or.inl ⟨rfl, fun hm => hB hBt (ht 93 (by simp [Delim]) (hsub 93 (by simp) hm)),
+      fun hm => h64 (ht 64 (by simp [Delim]) (hsub 64 (by simp) hm))⟩⟩
+  -- every other answer brings no new delimiter
+  have main : (∀ c, Delim c → c ∈ h1 → c ∈ h0) →
+      ∃ body, HostTxt (rebracket (mem 91 (rpartition 64 n).2.2) h1) body := by
+    intro hd
     have h64' : 64 ∉ h1 := fun hm => h64 (hd 64 (by simp [Delim]) hm)
     have h91' : 91 ∉ h1 := fun hm => h91 (hd 91 (by simp [Delim]) hm)
     cases hb : mem 91 (rpartition 64 n).2.2 with
@@ -594,6 +603,13 @@ theorem hostText_rebracket (o : Oracles) (n : Str) (np : NetlocParts) (h0 h1 : S
       have : rebracket false h1 = h1 := by simp [rebracket]
       rw [this]
       exact ⟨h1, Or.inr ⟨rfl, h58', h91', h64'⟩⟩
+  rcases StrTotal.encodeHost_false_cases o h0 h1 he with ⟨h8, hv6, hr⟩ | ⟨hna, a, hi, _, hA⟩ | hrest
+  · exact keyv6 h0 h8 (fun _ _ hm => hm) hv6 hr
+  · rcases hA with ⟨h8, hv6, hr⟩ | hA
+    · exact keyv6 a h8 (hidna hna a hi) hv6 hr
+    · exact main (fun c hc hm => hidna hna a hi c hc
+        (StrTotal.encodeHostA_false_char a h1 c (by unfold Delim at hc; omega) hA hm))
+  · exact main (StrTotal.encodeHost_false_delims o h0 h1 hidna hrest)
 
 theorem encodeHost_nil (o : Oracles) (v : Bool) : encodeHost o [] v = .ok [] := by
   cases v <;> rfl
@@ -767,7 +783,8 @@ def C16_keptPort (scheme : Str) (port : Option Nat) : Option Nat :=
     (1) `[` compressed IPv6 text `%zone` `]` when `h0` (before '%') is an IPv6 literal,
     (2) `h0` itself when it is an IPv4 literal (zone kept),
     (3) the ASCII-lower-cased `h0` when `h0` is ASCII, WHATEVER its characters (no reg-name screen),
-    (4) the answer of the IDNA encoder otherwise (no reg-name screen);
+    (4) the answer of the IDNA encoder otherwise (no reg-name screen) — unless
+    (5) (since fix 3fbf5b4) that answer `x` holds a ':': then `x` goes through `_encode_host` again, i.e. (1)–(3) for `x`;
     the stored netloc is `[userinfo@]` + `h1` (re-bracketed if the input host was bracketed) + `[:port]`, the port
     being dropped when it is the default of the lowered scheme. -/
 theorem C16_build_authority_host (e : Env) (a : BuildArgs) (u : Url) (hb : build e a = .ok u)
@@ -781,7 +798,10 @@ theorem C16_build_authority_host (e : Env) (a : BuildArgs) (u : Url) (hb : build
         V6More.portStr (C16_keptPort sc np.port) ∧
       (∀ h0, np.host = some h0 →
         (∃ h8, parseIP (partition 37 h0).1 = some (.v6 h8) ∧ h1 = [91] ++ (ipv6ToStr h8 ++ zonePart h0) ++ [93]) ∨
-        h1 = h0 ∨ (isAscii h0 = true ∧ h1 = lower h0) ∨ (isAscii h0 = false ∧ idnaEncode e.o h0 = .ok h1)) := by
+        h1 = h0 ∨ (isAscii h0 = true ∧ h1 = lower h0) ∨ (isAscii h0 = false ∧ idnaEncode e.o h0 = .ok h1) ∨
+        (isAscii h0 = false ∧ ∃ x, idnaEncode e.o h0 = .ok x ∧ mem 58 x = true ∧
+          ((∃ h8, parseIP (partition 37 x).1 = some (.v6 h8) ∧ h1 = [91] ++ (ipv6ToStr h8 ++ zonePart x) ++ [93]) ∨
+            h1 = x ∨ (isAscii x = true ∧ h1 = lower x)))) := by
   obtain ⟨sc, hsc, hsch, _, hnl, _⟩ := build_parts e a u henc hb
   unfold StrTotal.buildNetloc at hnl
   have hne : a.authority.isEmpty = false := isEmpty_false_of_ne hauth
@@ -796,7 +816,12 @@ theorem C16_build_authority_host (e : Env) (a : BuildArgs) (u : Url) (hb : build
     | some h0 => rw [hh] at hh1; exact hh1
   · intro h0 hh
     rw [hh] at hh1
-    exact StrTotal.encodeHost_false_cases e.o h0 h1 hh1
+    rcases StrTotal.encodeHost_false_cases e.o h0 h1 hh1 with h | h | h | h | h
+    · exact Or.inl h
+    · exact Or.inr (Or.inr (Or.inr (Or.inr h)))
+    · exact Or.inr (Or.inl h)
+    · exact Or.inr (Or.inr (Or.inl h))
+    · exact Or.inr (Or.inr (Or.inr (Or.inl h)))
 
 /-- NOW SCREENED (fix c2c2803; this replaces `C16_build_ignores_nfkc` / `C16_build_authority_no_nfkc_screen`, which
     described the MISSING screen).  `build(authority=A)` with a non-ASCII `A` whose NFKC form (`nn`, the oracle's
